@@ -89,3 +89,21 @@ func anon2[K comparable, V any](m map[K]struct {
 	_ = s
 	return
 }
+
+// returns whose results depend on the evaluation order (an argument is mutated through its address)
+func bumpSizes(x *int) int {
+	*x += 10
+	return *x
+}
+
+func orderDependentSizes(a, b, c, d int) (int, int, int, int, int, int, int, int) {
+	f := func() (int, int) { return a, bumpSizes(&a) }
+	g := func() (int, int) { return bumpSizes(&b), b }
+	h := func() (int, int) { return c, bumpSizes(&d) }
+	k := func() (int, int) { return d, bumpSizes(&d) }
+	a1, a2 := f()
+	b1, b2 := g()
+	c1, c2 := h()
+	d1, d2 := k()
+	return a1, a2, b1, b2, c1, c2, d1, d2
+}
